@@ -76,7 +76,8 @@ impl EditState {
                     continue;
                 }
                 removed_chars = (removed_chars as f32 / 2.0).ceil() as i32;
-                for x in area.x_range() {
+                // x counts columns from the right edge of the area
+                for x in 0..area.get_width() {
                     let ch = if area.right() - x - removed_chars >= area.left() {
                         layer.get_char((area.right() - x - removed_chars, y))
                     } else {
